@@ -24,10 +24,10 @@ type valKey struct {
 type repKind int
 
 const (
-	kNone repKind = iota
-	kInt          // integers and booleans (0/1)
-	kSlice        // slices and strings: len/cap (+ nilness)
-	kPtr          // pointers, interfaces, maps, funcs: nilness (+ address)
+	kNone  repKind = iota
+	kInt           // integers and booleans (0/1)
+	kSlice         // slices and strings: len/cap (+ nilness)
+	kPtr           // pointers, interfaces, maps, funcs: nilness (+ address)
 	kTuple
 )
 
@@ -74,7 +74,9 @@ type disjunct struct {
 	mem   map[string]*memCell
 	// rets: set at Return inside an inlined callee
 	rets []rep
-	tag  string
+	// tags: for each loop under analysis (key frame|head) the set of head disjuncts this
+	// disjunct descends from ("h1" or "h1+h4")
+	tags map[string]string
 }
 
 func newDisjunct() *disjunct {
@@ -83,7 +85,13 @@ func newDisjunct() *disjunct {
 
 func (d *disjunct) clone() *disjunct {
 	r := &disjunct{facts: append([]lin.Ineq(nil), d.facts...), fkeys: make(map[string]bool, len(d.fkeys)),
-		vals: make(map[valKey]rep, len(d.vals)), mem: make(map[string]*memCell, len(d.mem)), tag: d.tag}
+		vals: make(map[valKey]rep, len(d.vals)), mem: make(map[string]*memCell, len(d.mem))}
+	if len(d.tags) > 0 {
+		r.tags = make(map[string]string, len(d.tags))
+		for k, v := range d.tags {
+			r.tags[k] = v
+		}
+	}
 	for k := range d.fkeys {
 		r.fkeys[k] = true
 	}
@@ -154,11 +162,11 @@ const (
 )
 
 type atomInfo struct {
-	kind atomKind
-	key  valKey
-	name string
-	lo   int64 // type range (valid when hasLo/hasHi)
-	hi   int64
+	kind         atomKind
+	key          valKey
+	name         string
+	lo           int64 // type range (valid when hasLo/hasHi)
+	hi           int64
 	hasLo, hasHi bool
 }
 
@@ -242,6 +250,9 @@ func (it *interp) allFacts(d *disjunct, extra ...lin.Ineq) []lin.Ineq {
 }
 
 func (it *interp) entails(d *disjunct, goal lin.Ineq) bool {
+	if goal.L.Bad() {
+		return false // arithmetic overflow while building the goal: undecided
+	}
 	if t, h := goal.Trivial(); t && h {
 		return true
 	}
